@@ -564,6 +564,13 @@ SubprocessResult run_process(const vector<string>& cmd, const string* stdin_data
           if (errno == EAGAIN || errno == EINTR || errno == EWOULDBLOCK) {
             continue;
           }
+          if (errno == EPIPE) {
+            // The child closed its stdin without reading everything; this is
+            // its choice, not an error - just stop writing
+            p.remove(pfd.first, true);
+            write_fd_to_buffer.erase(pfd.first);
+            continue;
+          }
           throw runtime_error("write failed: " + string_for_error(errno));
         } else { // bytes_written == 0; usually means the pipe is broken
           p.remove(pfd.first, true);
